@@ -73,8 +73,20 @@ def run(ctx):
         body = [s for s in f.body if not (isinstance(s, ast.Expr) and isinstance(s.value, ast.Constant))]
         ok = False
         kind = None
-        if len(body) == 1 and isinstance(body[0], ast.Return) and isinstance(body[0].value, ast.Call):
-            call = body[0].value
+        # every returning path returns (locals and bound-method aliases expanded) one and the same dispatch call,
+        # and nothing else is called on the way
+        call = None
+        try:
+            rcs = [c_ for c_ in symex.Walker(want_returns=True).run(f) if c_.kind == 'return']
+        except symex.TooManyPaths:
+            rcs = []
+        vals = {unparse(_expand_call(c_.sub, c_.env)) for c_ in rcs}
+        othercalls = [c_ for c_ in iter_own(f) if isinstance(c_, ast.Call)]
+        if len(vals) == 1 and rcs and len(othercalls) == 1:
+            v0 = _expand_call(rcs[0].sub, rcs[0].env)
+            if isinstance(v0, ast.Call):
+                call = v0
+        if call is not None:
             vparam = f.args.args[1].arg if len(f.args.args) > 1 else None
             if isinstance(call.func, ast.Attribute) and unparse(call.func.value) == vparam and \
                     call.func.attr.startswith('node_standard_process_') and \
@@ -456,6 +468,19 @@ def _check_process(ctx, m, fn, q, kind, fields, vname, vis):
                '%d result keyword(s) for %d child-bearing field(s)' % (len(extra), len(fields)),
                'visit call passes result keywords %s for fields %s' % (extra, fields),
                construct=label + ': result keywords', trivial=True)
+
+
+def _expand_call(v, env):
+    """the returned value with locals replaced by their definitions, including a local bound to a bound method
+    (`fn = visitor.m; r = fn(self); return r`)"""
+    full = symex.expand(v, env)
+    if isinstance(full, ast.Call) and isinstance(full.func, ast.Name):
+        d = env.get(full.func.id)
+        if d is None:
+            d = env.get('#def', {}).get(full.func.id)
+        if isinstance(d, ast.AST):
+            full = ast.Call(func=symex.expand(d, env), args=full.args, keywords=full.keywords)
+    return full
 
 
 def _starred_dicts(fn, call):
